@@ -249,6 +249,9 @@ func cmdCheck(args []string) int {
 		if *only != "" && !strings.Contains(r.Name, *only) {
 			continue
 		}
+		if *tier == "quick" && r.Quick["quick_skip"] == 1 {
+			continue
+		}
 		for _, l := range r.Reach {
 			if reachedAll[r.Name][l] == 0 {
 				inconclusive = append(inconclusive, fmt.Sprintf("%s: reach label %q not covered by any feasible path (vacuity check)", r.Name, l))
